@@ -4,11 +4,24 @@
    The reflect tables (type universe, Kind, AssignableTo, Elem) are universally quantified; the only thing assumed of
    them is that AssignableTo is reflexive (reflect.directlyAssignable: T == V).  `body` is the user's function: any map
    from the received arguments to values of the declared result types.  `call ... fixed mut` is the model of
-   bigbuff.Call + CallArgs / CallResults / CallResultsSlice + callable.Call; fixed = false is the code as it is in the
-   repository, fixed = true the minimally repaired pipeline (see Model/Callable.v).
+   bigbuff.Call + CallArgs / CallResults / CallResultsSlice + callable.Call.
 
-   THE CODE AS IT IS VIOLATES THE PROPERTY (C19_nil_refuted, C19_current_panic_classes); the positive theorems hold of
-   the repaired pipeline. *)
+   WHICH CODE.  /repo HEAD contains the fix commits cba04f9 and d98fcef, so
+     fixed = true   IS THE CURRENT CODE: the positive theorems below (C19_call_or_error, C19_fixed_is_direct_call_or_error,
+                    C19_never_panics, C19_received_arguments) are statements about callable.go as it is now.  The order of
+                    the checks in the model's fixed pipeline was compared with callable.go at HEAD line by line (table
+                    in the header of Model/Callable.v): resolveArgs length -> per-argument nil/nilable -> AssignableTo ->
+                    128 limit; CallResults length -> 128 limit -> per target nil / not ptr / nil ptr / AssignableTo;
+                    CallResultsSlice not ptr -> nil ptr -> not slice -> 128 limit -> per result AssignableTo;
+                    callable.Call omitted-args test before anything is invoked.
+     fixed = false  is HISTORY: the code before cba04f9 (snapshot 271484f), which violated the property.  The theorems
+                    C19_nil_refuted and C19_current_panic_classes ("current" in their names dates from before the fixes)
+                    record the seven input classes on which THAT code panicked; they are kept as the regression record
+                    of finding F1 (known_findings.json) and as sensitivity evidence (the same pipeline with the
+                    repairs switched off).
+   Out of scope: the `not func` error of callable.go:77-79 (dead for Callables made by NewCallable, which the property's
+   "for any function value" quantifies over: NewCallable panics at l.64-69 unless given a non-nil func, and its Type() has
+   Kind Func), CallArgsRaw / CallResultsRaw, and foreign implementations of the Callable interface. *)
 From Coq Require Import List ZArith Bool Arith.
 From BB.Model Require Import Callable.
 From BB.Proofs Require Callable.
@@ -16,7 +29,8 @@ Import ListNotations.
 
 (* For EVERY type universe, signature (any arity, variadic or not, any parameter / result types), user function and
    list of options (any number of CallArgs / CallResults / CallResultsSlice in any order, each with any list of values:
-   untyped nil, typed nil pointers, wrong kinds, wrong lengths): the observable outcome of the repaired Call is
+   untyped nil, typed nil pointers, wrong kinds, wrong lengths): the observable outcome of Call (the current code,
+   fixed = true) is
    EITHER  no error, the function invoked exactly once with exactly `expected_args` (one value per given argument of the
            last CallArgs, of the variadic-expanded parameter types, untyped nil as the zero value; no CallArgs = no
            arguments) and exactly `expected_stores` written (the i-th value the direct call returned into the i-th target
@@ -37,7 +51,7 @@ Theorem C19_call_or_error :
 Proof. exact Proofs.Callable.call_or_error. Qed.
 Print Assumptions C19_call_or_error.
 
-(* The same as one equation: the repaired pipeline is the function "if valid then direct call else error". *)
+(* The same as one equation: the current code (fixed = true) is the function "if valid then direct call else error". *)
 Theorem C19_fixed_is_direct_call_or_error :
   forall (ty : Type) (kind : ty -> kindT) (assignable : ty -> ty -> bool) (elem : ty -> ty),
   (forall t, assignable t t = true) ->
@@ -75,9 +89,10 @@ Theorem C19_received_arguments :
 Proof. exact Proofs.Callable.expected_args_shape. Qed.
 Print Assumptions C19_received_arguments.
 
-(* ---- the code as it is ---- *)
-(* There are a (reflexive) universe, a signature, a well-typed function and arguments on which the current code panics:
-   Call(f, CallArgs(nil)) for f : func(p) with p a pointer to int (nil dereference of reflect.TypeOf(nil)). *)
+(* ---- HISTORY: the code before cba04f9 (fixed = false) ---- *)
+(* There are a (reflexive) universe, a signature, a well-typed function and arguments on which the code BEFORE cba04f9
+   panicked: Call(f, CallArgs(nil)) for f : func(p) with p a pointer to int (nil dereference of reflect.TypeOf(nil)).
+   On the current code the same call passes nil (C19_call_or_error; valid because a pointer kind is nilable). *)
 Theorem C19_nil_refuted :
   exists (sg : sig nat) (body : list (rval nat) -> list (rval nat)) (opts : list (copt nat)),
   (forall a, map rty (body a) = s_out sg) /\
@@ -85,7 +100,9 @@ Theorem C19_nil_refuted :
 Proof. exact Proofs.Callable.nil_refuted. Qed.
 Print Assumptions C19_nil_refuted.
 
-(* Every input class on which the current code panics on its own account (each witness is valid Go):
+(* Every input class on which the code BEFORE cba04f9 / d98fcef panicked on its own account (each witness is valid Go;
+   `C` below is the fixed = false pipeline; on the current code each of them is an error or a valid call, by
+   C19_never_panics):
    untyped nil argument; untyped nil inside a variadic tail; untyped nil result target; CallArgs omitted for a function
    with a mandatory parameter; more than 128 arguments to a variadic function (reflect.FuncOf limit); a function with
    more than 128 results called with CallResultsSlice or with CallResults (the same limit, results thunk). *)
@@ -105,7 +122,7 @@ Theorem C19_current_panic_classes :
 Proof. exact Proofs.Callable.current_panic_classes. Qed.
 Print Assumptions C19_current_panic_classes.
 
-(* ---- sensitivity: each validation is needed (seeded defects on the repaired pipeline) ---- *)
+(* ---- sensitivity: each validation is needed (seeded defects on the current code, fixed = true) ---- *)
 (* resolveArgs without the AssignableTo check: func(int) called with a string panics inside the argument thunk. *)
 Theorem C19_no_assign_check_refuted :
   call nat ex_kind ex_assignable ex_elem true MNoAssignCheck (mkSig [0] None []) (fun _ => [])
